@@ -203,10 +203,7 @@ class Unsupported(Exception):
     pass
 
 
-def fname(f):
-    if getattr(f, '__module__', None) == 'sympool':
-        return f.__name__
-    return (getattr(f, '__module__', '?') or '?') + ':' + getattr(f, '__qualname__', repr(f))
+from common import fname  # noqa
 
 
 def edge_json(e, cache_ids):
